@@ -27,16 +27,25 @@ def canon(e):
     return ['unknown', k]
 
 
+def one(text):
+    try:
+        return {'ok': canon(parse_expression(text))}
+    except BareScriptParserError as exc:
+        return {'err': [exc.error, exc.column_number, exc.line_number, exc.line == text]}
+    except Exception as exc:  # pylint: disable=broad-except
+        return {'host': type(exc).__name__}
+
+
 def main():
     sys.setrecursionlimit(10000)
-    out = []
-    for text in json.load(sys.stdin):
-        try:
-            out.append({'ok': canon(parse_expression(text))})
-        except BareScriptParserError as exc:
-            out.append({'err': [exc.error, exc.column_number, exc.line_number, exc.line == text]})
-        except Exception as exc:  # pylint: disable=broad-except
-            out.append({'host': type(exc).__name__})
+    texts = json.load(sys.stdin)
+    out = [one(text) for text in texts]
+    # the result depends on the text only: a SECOND pass over the same texts, after everything (accepted and rejected) went through the
+    # parser once in this process, must give the same answers
+    for text, first in zip(texts, out):
+        second = one(text)
+        if second != first:
+            first['again'] = second
     json.dump(out, sys.stdout)
 
 
